@@ -45,7 +45,7 @@ func runC14(c *Ctx) {
 	// incrementCounter's initialiser: counter.New(name).Inc(); other counter sinks in the package
 	for _, fn := range m.PkgFuncs("internal/crashmonitor") {
 		for _, cs := range callsIn(fn, "internal/counter.New", "internal/counter.NewStack", "counter.New", "counter.NewStack") {
-			d := describe(argsOf(cs)[0])
+			d := describeArg(cs, 0)
 			_, isC := constOf(argsOf(cs)[0])
 			_, isOwnParam := argsOf(cs)[0].(*ssa.Parameter)
 			okInit := isC || (isOwnParam && strings.Contains(fname(fn), "init$"))
